@@ -108,16 +108,9 @@ Definition get_ref (s : sess) (f : N) : getres :=
       match s_ent sf with None => GErr | Some e => GOk sf e end
   end.
 
-Definition lock (f : N) (s : sess) : sess :=
-  match refs s !! f with
-  | Some sf => set_refs (<[f := SFid (s_ent sf) (s_file sf) (s_mode sf) true]> (refs s)) s
-  | None => s
-  end.
-Definition unlock (f : N) (s : sess) : sess :=
-  match refs s !! f with
-  | Some sf => set_refs (<[f := SFid (s_ent sf) (s_file sf) (s_mode sf) false]> (refs s)) s
-  | None => s
-  end.
+Definition set_locked (b : bool) (sf : sfid) : sfid := SFid (s_ent sf) (s_file sf) (s_mode sf) b.
+Definition lock (f : N) (s : sess) : sess := set_refs (alter (set_locked true) f (refs s)) s.
+Definition unlock (f : N) (s : sess) : sess := set_refs (alter (set_locked false) f (refs s)) s.
 (* store a new SFid value for f and release its lock (ref.link / field updates + deferred Unlock) *)
 Definition put (f : N) (e : option ent) (fl : option fh) (m : N) (s : sess) : sess :=
   set_refs (<[f := SFid e fl m false]> (refs s)) s.
